@@ -24,6 +24,24 @@ pub struct CompiledExpression {
     io_map: Option<HashMap<u32, Target>>,
 }
 
+/// Escape a string so that it can be spliced between the quotes of a Scheme string literal
+pub(crate) fn escape_string(raw: &str) -> String {
+    let mut escaped = String::with_capacity(raw.len());
+    for c in raw.chars() {
+        if c == '"' || c == '\\' {
+            escaped.push('\\');
+        }
+        escaped.push(c);
+    }
+    escaped
+}
+
+/// Same as [escape_string] for text that ends up in the template of a `format` call, where `~`
+/// introduces a directive and has to be doubled to stand for itself
+pub(crate) fn escape_template(raw: &str) -> String {
+    escape_string(raw).replace('~', "~~")
+}
+
 /// Returns a closure that will return the code needed to parse an MDT when given a path towards
 /// this MDT. This allows to compile an expression once and insert the MDT path after the fact
 pub fn compile(
@@ -74,7 +92,7 @@ pub fn compile(
 
 impl CompiledExpression {
     pub fn scheme<S: AsRef<str>>(&self, mdt: S) -> String {
-        let mdt = mdt.as_ref();
+        let mdt = escape_string(mdt.as_ref());
         format!(
             "(use-modules (lipe) (lipe find){})
 
